@@ -222,7 +222,11 @@ class LinkContainer(Container):
 
         self._backend.delete(item.id)
 
-    def append(self, item):
+    def _check_item(self, item):
+        """
+        Returns the entity that is to be linked, or raises an exception if
+        the item cannot be appended to this container.
+        """
         if util.is_uuid(item):
             item = self._inst_item(self._backend.get_by_id(item))
 
@@ -231,14 +235,20 @@ class LinkContainer(Container):
 
         if item not in self._itemstore:
             raise RuntimeError("This item cannot be appended here.")
+        return item
 
+    def append(self, item):
+        item = self._check_item(item)
         self._backend.create_link(item, item.id)
 
     def extend(self, items):
         if not isinstance(items, Iterable):
             raise TypeError("{} object is not iterable".format(type(items)))
+        # check all items before linking any: a refused call must not leave
+        # the items that precede the invalid one behind
+        items = [self._check_item(item) for item in items]
         for item in items:
-            self.append(item)
+            self._backend.create_link(item, item.id)
 
     def __getitem__(self, identifier):
         if isinstance(identifier, int):
